@@ -827,3 +827,64 @@ class Reuse:
 
 
 REUSE = Reuse()
+
+
+# --------------------------------------------------------------------------------------------
+# CFDP PDUs followed by further octets (C09 clause): both behaviours are right
+# --------------------------------------------------------------------------------------------
+def cfdp_declared_len(raw: bytes) -> Optional[int]:
+    """length the fixed PDU header declares (4 + 2*idw + seqw + data-field length); None if unreadable"""
+    if len(raw) < 4:
+        return None
+    idw, sqw = ((raw[3] >> 4) & 7) + 1, (raw[3] & 7) + 1
+    return 4 + 2 * idw + sqw + ((raw[1] << 8) | raw[2])
+
+
+def cfdp_is_nak(raw: bytes) -> bool:
+    if len(raw) < 4 or raw[0] & 0x10:
+        return False
+    hl = 4 + 2 * (((raw[3] >> 4) & 7) + 1) + ((raw[3] & 7) + 1)
+    return len(raw) > hl and raw[hl] == 0x08
+
+
+def cfdp_tolerant(decode: Callable[[bytes], Any], raw: bytes, refuses: Optional[bool] = None) -> Any:
+    """`decode(raw)` under the C09 clause "a complete CFDP PDU followed by further octets is EITHER decoded exactly as
+    the PDU alone OR refused with a documented error": whichever of the two the implementation does, the result is
+    reported the way the MODEL behaves, so that a decoder may switch between them without an alarm.
+      model ignores trailing octets (refuses=False; every kind but NAK): a documented refusal of the longer buffer is
+        answered by decoding the declared PDU alone;
+      model refuses them (refuses=True; NAK, also through the factory): an implementation that decodes the longer
+        buffer must decode it exactly as the PDU alone (checked here) and then counts as the refusal.
+    refuses=None: decided from the octets (NAK directive code)."""
+    n = cfdp_declared_len(raw)
+    longer = n is not None and n < len(raw)
+    if refuses is None:
+        refuses = cfdp_is_nak(raw)
+    try:
+        q = decode(raw)
+    except SelfCheckFailure:
+        raise
+    except Exception as e:  # noqa
+        if longer and not refuses and exc_categories(e):
+            return decode(raw[:n])
+        raise
+    if longer and refuses and q is not None:
+        alone = decode(raw[:n])
+        if alone is None or bytes(alone.pack()) != bytes(q.pack()) or not (alone == q):
+            raise SelfCheckFailure("octets after the declared PDU change the decoded PDU")
+        raise ValueError("(canonicalised) a PDU followed by further octets, decoded as the PDU alone")
+    return q
+
+
+def encoder_failure_is_refusal(fn: Callable) -> Callable:
+    """The encoding properties ask of an encoder only that an unencodable parameter set makes it FAIL rather than
+    truncate; which class it fails with is not stated (C10 is about decoders). struct.error / OverflowError from an
+    encoder op are therefore reported like the ValueError the models show."""
+    import struct as _struct
+
+    def wrapped(a):
+        try:
+            return fn(a)
+        except (_struct.error, OverflowError) as e:
+            raise ValueError(f"(canonicalised encoder failure) {type(e).__name__}: {e}") from e
+    return wrapped
